@@ -2,7 +2,11 @@
     (build/gen/Translated.v, regenerated on every run).  Every proof is by conversion only (the byte-builder
     section at the end additionally rewrites with three wrap lemmas and does a few one-level case splits): if a
     constant, an operator, a field width or the order of operations changes in the source, these proofs stop
-    checking, whether or not any generated input reaches the difference. *)
+    checking, whether or not any generated input reaches the difference.
+    The sections after "Sample tables with data-dependent loops" (added with the loop / record-mode translation) also use
+    short inductive lemmas: the run-length fold against the model's [rle], and the indexed trun loop against
+    [trun_entries].  The stts / ctts theorems (and every container above them) carry the hypothesis that the tables
+    have fewer than 2^32 entries: the source's [last.0 += 1] is translated with its u32 wrap, the model's [rle] counts in N. *)
 From Coq Require Import NArith List.
 From Muxide Require Import Model.Base Model.Boxes.
 Require Import Translated.
@@ -417,3 +421,412 @@ Print Assumptions fmp4_sample_entries_source_agree.
 Print Assumptions build_mfhd_source_agrees.
 Print Assumptions build_tfhd_source_agrees.
 Print Assumptions build_tfdt_source_agrees.
+
+(** * Sample tables with data-dependent loops (src/muxer/mp4.rs)
+    [for x in slice { payload.extend_from_slice(&x.to_be_bytes()) }] is translated to [flat_map (fun x => be32 x) slice],
+    the count field [(slice.len() as u32)] to [be32 (u32 (len slice))]. *)
+From Coq Require Import ZArith Lia.
+From Muxide Require Import Model.Writer.
+
+Theorem build_stsz_box_source_agrees : forall sizes, build_stsz_box_src sizes = build_stsz_box sizes.
+Proof. intros. unfold build_stsz_box_src. rewrite be32_wrap, flat_map_concat_map. reflexivity. Qed.
+Theorem build_stco_box_source_agrees : forall chunk_offsets, build_stco_box_src chunk_offsets = build_stco_box chunk_offsets.
+Proof. intros. unfold build_stco_box_src. rewrite be32_wrap, flat_map_concat_map. reflexivity. Qed.
+Theorem build_stss_box_source_agrees : forall keyframes, build_stss_box_src keyframes = build_stss_box keyframes.
+Proof. intros. unfold build_stss_box_src. rewrite be32_wrap, flat_map_concat_map. reflexivity. Qed.
+(* INV-004, the [assert_invariant!(size > 0)] loop at the head of build_stsz_box, as translated into
+   [build_stsz_box_src_pre] ([forallb]): the complement of the test with which the model's [moov_of]
+   (Model/Writer.v) reports PanicStszZeroSize *)
+Theorem build_stsz_box_invariant_source_agrees : forall t,
+  build_stsz_box_src_pre (st_sizes t) = negb (has_zero_size t).
+Proof.
+  intro t. unfold build_stsz_box_src_pre, has_zero_size. induction (st_sizes t) as [|s l IH]; [reflexivity|].
+  cbn [forallb existsb]. rewrite IH, Bool.negb_orb. destruct s; reflexivity.
+Qed.
+Print Assumptions build_stsz_box_source_agrees.
+Print Assumptions build_stco_box_source_agrees.
+Print Assumptions build_stss_box_source_agrees.
+Print Assumptions build_stsz_box_invariant_source_agrees.
+
+(** ** stts / ctts: the run-length loop.
+    The source keeps [entries: Vec<(u32, T)>] and, per input element, either bumps the count of the LAST entry
+    ([entries.last_mut()], [last.0 += 1], wrapping at u32 as translated) or pushes [(1, x)]; the translation is that
+    left fold, literally ([vec_last] / [vec_set_last] are defined in Translated.v).  The model's [rle] recurses from
+    the other end, merges at the HEAD and does not wrap: they agree when no count can reach 2^32, which is the
+    hypothesis [len l < 2^32] of the theorems below. *)
+Definition rle_step {A} (eqb : A -> A -> bool) (entries : list (N * A)) (x : A) : list (N * A) :=
+  match vec_last entries with
+  | Some last => if eqb (snd last) x then vec_set_last entries (u32 (fst last + 1), snd last) else entries ++ [(1, x)]
+  | None => entries ++ [(1, x)]
+  end.
+(* one step of the model's [rle] *)
+Definition rle_cons {A} (eqb : A -> A -> bool) (a : A) (r : list (N * A)) : list (N * A) :=
+  match r with (c, y) :: t => if eqb a y then (c + 1, y) :: t else (1, a) :: (c, y) :: t | [] => [(1, a)] end.
+
+Lemma rle_step_snoc A eqb (f : list (N * A)) c y x :
+  rle_step eqb (f ++ [(c, y)]) x = if eqb y x then f ++ [(u32 (c + 1), y)] else f ++ [(c, y); (1, x)].
+Proof.
+  unfold rle_step, vec_last, vec_set_last. rewrite rev_app_distr, removelast_last. cbn [rev app fst snd].
+  destruct (eqb y x); [reflexivity | rewrite <- app_assoc; reflexivity].
+Qed.
+
+Lemma len_cons A (a : A) l : len (a :: l) = len l + 1.
+Proof. unfold len. cbn [length]. lia. Qed.
+
+(* no count exceeds the number of elements encoded *)
+Lemma rle_count_le A eqb (l : list A) : Forall (fun e => fst e <= len l) (rle eqb l).
+Proof.
+  induction l as [|a l IH]; [constructor|].
+  change (rle eqb (a :: l)) with (rle_cons eqb a (rle eqb l)). rewrite len_cons.
+  assert (W : Forall (fun e : N * A => fst e <= len l + 1) (rle eqb l)) by (eapply Forall_impl; [|exact IH]; cbn; intros; lia).
+  unfold rle_cons. destruct (rle eqb l) as [|[c y] t]; [repeat constructor; cbn; lia|].
+  inversion W; subst. inversion IH; subst. cbn [fst] in *.
+  destruct (eqb a y); repeat constructor; cbn [fst]; try lia; assumption.
+Qed.
+
+(* appending one element to the input is one iteration of the source's loop *)
+Lemma rle_snoc A eqb (Heq : forall a b : A, eqb a b = true -> a = b) (l : list A) x :
+  len l + 1 < 4294967296 -> rle eqb (l ++ [x]) = rle_step eqb (rle eqb l) x.
+Proof.
+  induction l as [|a l IH]; intro B; [reflexivity|].
+  rewrite len_cons in B.
+  change (rle eqb ((a :: l) ++ [x])) with (rle_cons eqb a (rle eqb (l ++ [x]))).
+  change (rle eqb (a :: l)) with (rle_cons eqb a (rle eqb l)).
+  rewrite IH by lia. pose proof (rle_count_le A eqb l) as C. clear IH.
+  destruct (rle eqb l) as [|e f _] using rev_ind.
+  - cbn. destruct (eqb a x) eqn:E; [apply Heq in E; subst|]; reflexivity.
+  - destruct e as [c y]. apply Forall_app in C. destruct C as [_ C]. inversion C; subst. cbn [fst] in *.
+    rewrite rle_step_snoc.
+    assert (U1 : u32 (c + 1) = c + 1) by (apply N.mod_small; lia).
+    assert (U2 : u32 (c + 1 + 1) = c + 1 + 1) by (apply N.mod_small; lia).
+    destruct f as [|[c0 y0] f].
+    + cbn [app rle_cons]. destruct (eqb y x) eqn:E1, (eqb a y) eqn:E2; cbn [rle_cons app];
+        rewrite ?E1, ?E2; try reflexivity.
+      * change [(c + 1, y)] with ([] ++ [(c + 1, y)]). rewrite rle_step_snoc, E1, U1, U2. reflexivity.
+      * change [(1, a); (c, y)] with ([(1, a)] ++ [(c, y)]). rewrite rle_step_snoc, E1. reflexivity.
+      * change [(c + 1, y)] with ([] ++ [(c + 1, y)]). rewrite rle_step_snoc, E1. reflexivity.
+      * change [(1, a); (c, y)] with ([(1, a)] ++ [(c, y)]). rewrite rle_step_snoc, E1. reflexivity.
+    + cbn [app rle_cons]. destruct (eqb y x) eqn:E1, (eqb a y0) eqn:E2; cbn [rle_cons app]; rewrite ?E2;
+        rewrite ?app_comm_cons, rle_step_snoc, E1; reflexivity.
+Qed.
+
+Lemma rle_fold A eqb (Heq : forall a b : A, eqb a b = true -> a = b) (l : list A) :
+  len l < 4294967296 -> fold_left (rle_step eqb) l [] = rle eqb l.
+Proof.
+  induction l as [|x l IH] using rev_ind; intro B; [reflexivity|].
+  assert (L : len (l ++ [x]) = len l + 1) by (unfold len; rewrite app_length; cbn; lia).
+  rewrite L in B. rewrite fold_left_app. cbn [fold_left]. rewrite IH by lia. symmetry. apply rle_snoc; assumption.
+Qed.
+
+Theorem build_stts_box_source_agrees : forall durations,
+  len durations < 4294967296 -> build_stts_box_src durations = build_stts_box durations.
+Proof.
+  intros d B. unfold build_stts_box_src, build_stts_box. cbv zeta.
+  replace (fold_left _ d []) with (rle N.eqb d)
+    by (symmetry; exact (rle_fold N N.eqb (fun a b => proj1 (N.eqb_eq a b)) d B)).
+  rewrite be32_wrap, flat_map_concat_map. reflexivity.
+Qed.
+(* ctts: the offsets are i32 in the source and Z in the model; [offset.to_be_bytes()] is [be32 (i32_bits offset)],
+   the model's two's-complement helper, and [last.1 == offset] is [Z.eqb] *)
+Theorem build_ctts_box_source_agrees : forall cts_offsets,
+  len cts_offsets < 4294967296 -> build_ctts_box_src cts_offsets = build_ctts_box cts_offsets.
+Proof.
+  intros d B. unfold build_ctts_box_src, build_ctts_box. cbv zeta.
+  replace (fold_left _ d []) with (rle Z.eqb d)
+    by (symmetry; exact (rle_fold Z Z.eqb (fun a b => proj1 (Z.eqb_eq a b)) d B)).
+  rewrite be32_wrap, flat_map_concat_map. reflexivity.
+Qed.
+Print Assumptions build_stts_box_source_agrees.
+Print Assumptions build_ctts_box_source_agrees.
+
+(** * Containers of the progressive muxer (record mode: a struct parameter of the source is a value of the model's
+    record, its fields mapped by the translator's RECORDS table; HevcConfig's accessor methods and
+    SampleTables::total_duration are translated in place from their bodies) *)
+Lemma nth_nth_error {A} (l : list A) n d : nth n l d = match nth_error l n with Some x => x | None => d end.
+Proof. revert n. induction l as [|a l IH]; intros [|n]; cbn; auto. Qed.
+
+Theorem build_stsd_box_source_agrees : forall v c, build_stsd_box_src v c = build_stsd_box v c.
+Proof.
+  intros v c. unfold build_stsd_box_src, build_stsd_box. do 4 f_equal. destruct c as [c|c|c|c].
+  - apply build_avc1_box_source_agrees.
+  - rewrite nth_nth_error. exact (build_hvc1_box_source_agrees v c).
+  - apply build_av01_box_source_agrees.
+  - apply build_vp09_box_source_agrees.
+Qed.
+
+Theorem build_audio_stsd_box_source_agrees : forall a, build_audio_stsd_box_src a = build_audio_stsd_box a.
+Proof.
+  intros a. unfold build_audio_stsd_box_src, build_audio_stsd_box.
+  rewrite build_mp4a_box_source_agrees, build_opus_box_source_agrees. destruct (at_codec a); reflexivity.
+Qed.
+
+(* the hypothesis under which the run-length loops cannot wrap a u32 count *)
+Definition tables_small (t : sample_tables) : Prop :=
+  len (st_durations t) < 4294967296 /\ len (st_cts_offsets t) < 4294967296.
+
+Lemma len_eqb_0 {A} (l : list A) : (len l =? 0) = match l with [] => true | _ => false end.
+Proof. destruct l; reflexivity. Qed.
+
+Theorem build_stbl_box_source_agrees : forall v t c, tables_small t -> build_stbl_box_src v t c = build_stbl_box v t c.
+Proof.
+  intros v t c [Hd Hc]. unfold build_stbl_box_src, build_stbl_box.
+  rewrite build_stsd_box_source_agrees, (build_stts_box_source_agrees _ Hd), (build_ctts_box_source_agrees _ Hc),
+    build_stsc_box_source_agrees, build_stsz_box_source_agrees, build_stco_box_source_agrees,
+    build_stss_box_source_agrees, len_eqb_0.
+  destruct (st_keyframes t); reflexivity.
+Qed.
+
+Theorem build_audio_stbl_box_source_agrees : forall a t,
+  len (st_durations t) < 4294967296 -> build_audio_stbl_box_src a t = build_audio_stbl_box a t.
+Proof.
+  intros a t Hd. unfold build_audio_stbl_box_src, build_audio_stbl_box.
+  rewrite build_audio_stsd_box_source_agrees, (build_stts_box_source_agrees _ Hd),
+    build_stsc_box_source_agrees, build_stsz_box_source_agrees, build_stco_box_source_agrees. reflexivity.
+Qed.
+
+Theorem build_minf_box_source_agrees : forall v t c, tables_small t -> build_minf_box_src v t c = build_minf_box v t c.
+Proof. intros. unfold build_minf_box_src. rewrite build_stbl_box_source_agrees by assumption. reflexivity. Qed.
+
+Theorem build_audio_minf_box_source_agrees : forall a t,
+  len (st_durations t) < 4294967296 -> build_audio_minf_box_src a t = build_audio_minf_box a t.
+Proof. intros. unfold build_audio_minf_box_src. rewrite build_audio_stbl_box_source_agrees by assumption. reflexivity. Qed.
+
+(* encode_language_code stays a function parameter (see build_mdhd_box_source_agrees); it is passed down unchanged
+   from build_moov_box_src and instantiated here with the model's function *)
+Definition lang_fn : list N -> list N := fun s => encode_language_code (utf8_chars s).
+
+Theorem build_mdia_box_source_agrees : forall v t c m, tables_small t ->
+  build_mdia_box_src v t c m lang_fn = build_mdia_box v t c m.
+Proof.
+  intros. unfold build_mdia_box_src, build_mdia_box.
+  rewrite build_minf_box_source_agrees by assumption. unfold lang_fn. rewrite build_mdhd_box_source_agrees. reflexivity.
+Qed.
+
+Theorem build_audio_mdia_box_source_agrees : forall a t m, len (st_durations t) < 4294967296 ->
+  build_audio_mdia_box_src a t m lang_fn = build_audio_mdia_box a t m.
+Proof.
+  intros. unfold build_audio_mdia_box_src, build_audio_mdia_box.
+  rewrite build_audio_minf_box_source_agrees by assumption. unfold lang_fn. rewrite build_mdhd_box_source_agrees. reflexivity.
+Qed.
+
+Theorem build_trak_box_source_agrees : forall v t c m, tables_small t ->
+  build_trak_box_src v t c m lang_fn = build_trak_box v t c m.
+Proof.
+  intros. unfold build_trak_box_src, build_trak_box.
+  rewrite build_mdia_box_source_agrees by assumption. rewrite build_tkhd_box_source_agrees. reflexivity.
+Qed.
+
+Theorem build_audio_trak_box_source_agrees : forall a t m, len (st_durations t) < 4294967296 ->
+  build_audio_trak_box_src a t m lang_fn = build_audio_trak_box a t m.
+Proof.
+  intros. unfold build_audio_trak_box_src, build_audio_trak_box.
+  rewrite build_audio_mdia_box_source_agrees by assumption. rewrite build_audio_tkhd_box_source_agrees. reflexivity.
+Qed.
+
+Theorem build_ilst_string_item_source_agrees : forall atom_type value,
+  build_ilst_string_item_src atom_type value = build_ilst_string_item atom_type value.
+Proof. intros. reflexivity. Qed.
+
+(* format_unix_timestamp (a format!() call) is a function parameter, instantiated with the model's function, whose
+   six printed fields are tied to the source by format_unix_timestamp_from_source_fields *)
+Theorem build_udta_box_source_agrees : forall m, build_udta_box_src m format_unix_timestamp = build_udta_box m.
+Proof.
+  intros. unfold build_udta_box_src, build_udta_box. cbv zeta. rewrite len_eqb_0.
+  destruct (_ ++ _); reflexivity.
+Qed.
+
+Lemma skip_if_empty (x : list N) : (if negb (len x =? 0) then x else []) = x.
+Proof. destruct x; reflexivity. Qed.
+
+(* the whole moov of the progressive muxer, as a function of (video track, tables, audio option, config, metadata) *)
+Theorem build_moov_box_source_agrees : forall v vt audio c m,
+  tables_small vt ->
+  match audio with Some (_, t) => len (st_durations t) < 4294967296 | None => True end ->
+  build_moov_box_src v vt audio c m lang_fn format_unix_timestamp = build_moov_box v vt audio c m.
+Proof.
+  intros v vt audio c m Hv Ha. unfold build_moov_box_src, build_moov_box. cbv zeta.
+  rewrite build_trak_box_source_agrees by assumption.
+  rewrite build_mvhd_payload_source_agrees.
+  destruct audio as [[a t]|]; [rewrite build_audio_trak_box_source_agrees by assumption|];
+    (destruct m; [rewrite skip_if_empty, build_udta_box_source_agrees|]; reflexivity).
+Qed.
+
+(* the two overflow preconditions recorded for build_moov_box ([total_duration()] sums into a u64, then
+   [* MOVIE_TIMESCALE as u64]): the second is the complement of the model's PanicMovieDurationOverflow test *)
+Theorem build_moov_box_overflow_precondition_agrees : forall vt,
+  build_moov_box_src_pre vt =
+  (total_duration vt <=? U64MAX) && negb (U64MAX <? total_duration vt * MOVIE_TIMESCALE).
+Proof. intros. unfold build_moov_box_src_pre. rewrite N.ltb_antisym, Bool.negb_involutive. reflexivity. Qed.
+Print Assumptions build_stsd_box_source_agrees.
+Print Assumptions build_audio_stsd_box_source_agrees.
+Print Assumptions build_stbl_box_source_agrees.
+Print Assumptions build_audio_stbl_box_source_agrees.
+Print Assumptions build_minf_box_source_agrees.
+Print Assumptions build_audio_minf_box_source_agrees.
+Print Assumptions build_mdia_box_source_agrees.
+Print Assumptions build_audio_mdia_box_source_agrees.
+Print Assumptions build_trak_box_source_agrees.
+Print Assumptions build_audio_trak_box_source_agrees.
+Print Assumptions build_ilst_string_item_source_agrees.
+Print Assumptions build_udta_box_source_agrees.
+Print Assumptions build_moov_box_source_agrees.
+Print Assumptions build_moov_box_overflow_precondition_agrees.
+
+(** * Fragmented init segment (src/fragmented.rs), record mode over the model's [frag_config].
+    build_hvcc_fmp4 / build_av1c_fmp4 / build_vpcc_fmp4 are now translated: [HevcConfig::new(..)] and the
+    [Av1Config { sequence_header: .., ..Default::default() }] literal become records of the model, the AV1
+    sequence-header parser [extract_av1_config] is a function parameter (instantiated with the model's parser). *)
+Theorem build_vpcc_fmp4_source_agrees : forall c, build_vpcc_fmp4_src c = build_vpcc_fmp4 c.
+Proof. intros. unfold build_vpcc_fmp4_src, build_vpcc_fmp4. destruct (fc_vp9 c); reflexivity. Qed.
+
+Theorem build_hvcc_fmp4_source_agrees : forall c, build_hvcc_fmp4_src c = build_hvcc_fmp4 c.
+Proof.
+  intros. unfold build_hvcc_fmp4_src, build_hvcc_fmp4. cbv zeta. rewrite nth_nth_error.
+  exact (build_hvcc_box_source_agrees _).
+Qed.
+
+Theorem build_av1c_fmp4_source_agrees : forall c, build_av1c_fmp4_src c extract_av1_config = build_av1c_fmp4 c.
+Proof. intros. unfold build_av1c_fmp4_src, build_av1c_fmp4. cbv zeta. exact (build_av1c_box_source_agrees _). Qed.
+
+(* the three sample entries whose configuration record used to be a parameter, now with the translated record *)
+Theorem fmp4_sample_entries_full_source_agree : forall c,
+  build_hvc1_fmp4_full_src c = build_box T_hvc1 (visual_entry_prefix_fmp4 c ++ build_hvcc_fmp4 c) /\
+  build_av01_fmp4_full_src c extract_av1_config = build_box T_av01 (visual_entry_prefix_fmp4 c ++ build_av1c_fmp4 c) /\
+  build_vp09_fmp4_full_src c = build_box T_vp09 (visual_entry_prefix_fmp4 c ++ build_vpcc_fmp4 c).
+Proof.
+  intros. unfold build_hvc1_fmp4_full_src, build_av01_fmp4_full_src, build_vp09_fmp4_full_src.
+  rewrite !be16_wrap, build_hvcc_fmp4_source_agrees, build_av1c_fmp4_source_agrees, build_vpcc_fmp4_source_agrees.
+  repeat split; reflexivity.
+Qed.
+
+(* the [if config.av1_sequence_header.is_some() .. else if config.vp9_config.is_some() .. else if config.vps.is_some()]
+   dispatch against the model's three-way match *)
+Theorem build_stsd_fmp4_source_agrees : forall c, build_stsd_fmp4_src c extract_av1_config = build_stsd_fmp4 c.
+Proof.
+  intros. unfold build_stsd_fmp4_src, build_stsd_fmp4.
+  destruct (fmp4_sample_entries_full_source_agree c) as (Hh & Ha & Hv).
+  destruct (fmp4_sample_entries_source_agree c) as (Hc & _).
+  rewrite Hh, Ha, Hv, Hc. destruct (fc_av1 c), (fc_vp9 c), (fc_vps c); reflexivity.
+Qed.
+
+Theorem build_stbl_fmp4_full_source_agrees : forall c, build_stbl_fmp4_full_src c extract_av1_config = build_stbl_fmp4 c.
+Proof. intros. unfold build_stbl_fmp4_full_src. rewrite build_stsd_fmp4_source_agrees. reflexivity. Qed.
+
+Theorem build_minf_fmp4_source_agrees : forall c, build_minf_fmp4_src c extract_av1_config = build_minf_fmp4 c.
+Proof. intros. unfold build_minf_fmp4_src. rewrite build_stbl_fmp4_full_source_agrees. reflexivity. Qed.
+
+Theorem build_mdia_fmp4_source_agrees : forall c, build_mdia_fmp4_src c lang_fn extract_av1_config = build_mdia_fmp4 c.
+Proof.
+  intros. unfold build_mdia_fmp4_src. rewrite build_minf_fmp4_source_agrees. unfold lang_fn.
+  rewrite build_mdhd_fmp4_source_agrees. reflexivity.
+Qed.
+
+Theorem build_trak_fmp4_source_agrees : forall c, build_trak_fmp4_src c lang_fn extract_av1_config = build_trak_fmp4 c.
+Proof.
+  intros. unfold build_trak_fmp4_src. rewrite build_mdia_fmp4_source_agrees, build_tkhd_fmp4_source_agrees. reflexivity.
+Qed.
+
+(* the whole moov of the init segment as a function of the configuration *)
+Theorem build_moov_fmp4_source_agrees : forall c, build_moov_fmp4_src c lang_fn extract_av1_config = build_moov_fmp4 c.
+Proof. intros. unfold build_moov_fmp4_src. rewrite build_trak_fmp4_source_agrees. reflexivity. Qed.
+Print Assumptions build_vpcc_fmp4_source_agrees.
+Print Assumptions build_hvcc_fmp4_source_agrees.
+Print Assumptions build_av1c_fmp4_source_agrees.
+Print Assumptions fmp4_sample_entries_full_source_agree.
+Print Assumptions build_stsd_fmp4_source_agrees.
+Print Assumptions build_stbl_fmp4_full_source_agrees.
+Print Assumptions build_minf_fmp4_source_agrees.
+Print Assumptions build_mdia_fmp4_source_agrees.
+Print Assumptions build_trak_fmp4_source_agrees.
+Print Assumptions build_moov_fmp4_source_agrees.
+
+(** * Fragmented media segment (src/fragmented.rs): trun, traf, moof, moof + mdat.
+    [for (i, sample) in samples.iter().enumerate()] is translated to a [flat_map] over [enumerate_from 0 samples]
+    (Translated.v), [samples[i + 1]] to [nth]; [pts.wrapping_sub(dts) as i32] to the difference modulo 2^64 computed
+    in Z, its low 32 bits read as two's complement ([i32_of_bits]), printed with [i32_bits]. *)
+Lemma i32_roundtrip n : n < 4294967296 -> i32_bits (i32_of_bits n) = n.
+Proof.
+  intro H. unfold i32_bits, i32_of_bits, I32MOD. destruct (n <? 2147483648) eqn:E.
+  - rewrite Z.mod_small by lia. apply N2Z.id.
+  - apply N.ltb_ge in E. replace (Z.of_N n - 4294967296)%Z with (Z.of_N n + (-1) * 4294967296)%Z by lia.
+    rewrite Z.mod_add by lia. rewrite Z.mod_small by lia. apply N2Z.id.
+Qed.
+Lemma cts_bits p d :
+  i32_bits (i32_of_bits (u32 (Z.to_N ((Z.of_N p - Z.of_N d) mod 18446744073709551616)%Z))) = i32_bits (Z.of_N p - Z.of_N d).
+Proof.
+  set (z := (Z.of_N p - Z.of_N d)%Z).
+  assert (E : u32 (Z.to_N (z mod 18446744073709551616)%Z) = i32_bits z).
+  { unfold u32, i32_bits, I32MOD. 
+    pose proof (Z.mod_pos_bound z 18446744073709551616 ltac:(lia)).
+    change 4294967296 with (Z.to_N 4294967296). rewrite <- Z2N.inj_mod by lia. f_equal.
+    change 18446744073709551616%Z with (4294967296 * 4294967296)%Z.
+    rewrite Z.rem_mul_r by lia. rewrite (Z.mul_comm 4294967296), Z.mod_add by lia. apply Z.mod_mod. lia. }
+  rewrite E. apply i32_roundtrip. unfold i32_bits, I32MOD.
+  pose proof (Z.mod_pos_bound z 4294967296 ltac:(lia)). lia.
+Qed.
+(* the body of the per-sample loop of build_trun, exactly as generated *)
+Definition trun_body (samples : list frag_sample) (e_ : N * frag_sample) : list N :=
+  ((be32 (if (((fst e_) + 1) <? (len samples)) then (u32 ((fs_dts (nth (N.to_nat ((fst e_) + 1)) samples {| fs_pts := 0; fs_dts := 0; fs_data := []; fs_sync := false |})) - (fs_dts (snd e_)))) else (if (0 <? (fst e_)) then (u32 ((fs_dts (snd e_)) - (fs_dts (nth (N.to_nat ((fst e_) - 1)) samples {| fs_pts := 0; fs_dts := 0; fs_data := []; fs_sync := false |})))) else 3000))) ++ (be32 (u32 (len (fs_data (snd e_))))) ++ (be32 (if (fs_sync (snd e_)) then 33554432 else 16842752)) ++ (be32 (i32_bits (i32_of_bits (u32 (Z.to_N ((Z.of_N (fs_pts (snd e_)) - Z.of_N (fs_dts (snd e_))) mod 18446744073709551616)%Z)))))).
+
+Lemma len_app1 {A} (l : list A) x : len (l ++ [x]) = len l + 1.
+Proof. unfold len. rewrite app_length. cbn. lia. Qed.
+Lemma to_nat_len {A} (l : list A) : N.to_nat (len l) = length l.
+Proof. unfold len. apply Nat2N.id. Qed.
+
+(* the loop from position [len done] on, over the remaining samples, is the model's recursion with
+   [prev] = the decode time of the last sample already emitted *)
+Lemma trun_loop : forall rest done prev,
+  (done = [] /\ prev = None) \/ (exists q p, done = q ++ [p] /\ prev = Some (fs_dts p)) ->
+  flat_map (trun_body (done ++ rest)) (enumerate_from (len done) rest) = trun_entries prev rest.
+Proof.
+  induction rest as [|s t IH]; intros done prev Hp; [reflexivity|].
+  cbn [enumerate_from flat_map trun_entries]. f_equal.
+  - unfold trun_body, trun_entry. cbn [fst snd]. rewrite be32_wrap, cts_bits. f_equal.
+    assert (L : len (done ++ s :: t) = len done + 1 + len t)
+      by (unfold len; rewrite app_length; cbn [length]; lia).
+    rewrite L. destruct t as [|n t'].
+    + assert (E : (len done + 1 <? len done + 1 + len (@nil frag_sample)) = false) by (apply N.ltb_ge; cbn; lia).
+      rewrite E. destruct Hp as [[-> ->]|(q & p & -> & ->)]; [reflexivity|].
+      rewrite len_app1. assert (E2 : (0 <? len q + 1) = true) by (apply N.ltb_lt; lia). rewrite E2.
+      replace (len q + 1 - 1) with (len q) by lia. rewrite to_nat_len, <- (app_assoc q [p] [s]). cbn [app].
+      rewrite nth_middle. reflexivity.
+    + assert (E : (len done + 1 <? len done + 1 + len (n :: t')) = true)
+        by (apply N.ltb_lt; unfold len; cbn [length]; lia).
+      rewrite E. replace (N.to_nat (len done + 1)) with (length (done ++ [s])) by (rewrite app_length, <- to_nat_len; cbn; lia).
+      change (done ++ s :: n :: t') with (done ++ [s] ++ n :: t'). rewrite app_assoc, nth_middle. reflexivity.
+  - replace (done ++ s :: t) with ((done ++ [s]) ++ t) by (rewrite <- app_assoc; reflexivity).
+    rewrite <- (len_app1 done s). apply IH. right. exists done, s. split; reflexivity.
+Qed.
+
+Theorem build_trun_source_agrees : forall samples data_offset,
+  build_trun_src samples data_offset = build_trun samples data_offset.
+Proof.
+  intros. unfold build_trun_src, build_trun.
+  change (flat_map _ (enumerate_from 0 samples)) with (flat_map (trun_body ([] ++ samples)) (enumerate_from (len (@nil frag_sample)) samples)).
+  rewrite (trun_loop samples [] None) by (left; split; reflexivity). rewrite be32_wrap. reflexivity.
+Qed.
+
+Theorem build_traf_source_agrees : forall samples base data_offset,
+  build_traf_src samples base data_offset = build_traf samples base data_offset.
+Proof. intros. unfold build_traf_src. rewrite build_trun_source_agrees. reflexivity. Qed.
+
+Theorem build_moof_with_offset_source_agrees : forall samples seq base data_offset,
+  build_moof_with_offset_src samples seq base data_offset = build_moof_with_offset samples seq base data_offset.
+Proof. intros. unfold build_moof_with_offset_src. rewrite build_traf_source_agrees. reflexivity. Qed.
+
+Theorem build_moof_source_agrees : forall samples seq base,
+  build_moof_src samples seq base = build_moof_with_offset samples seq base 0.
+Proof. intros. unfold build_moof_src. apply build_moof_with_offset_source_agrees. Qed.
+
+(* moof + mdat; the unused [_timescale] parameter of the source is universally quantified *)
+Theorem build_media_segment_source_agrees : forall samples seq base timescale,
+  build_media_segment_src samples seq base timescale = build_media_segment samples seq base.
+Proof.
+  intros. unfold build_media_segment_src, build_media_segment. cbv zeta.
+  rewrite build_moof_source_agrees, build_moof_with_offset_source_agrees, be32_wrap, flat_map_concat_map. reflexivity.
+Qed.
+Print Assumptions build_trun_source_agrees.
+Print Assumptions build_traf_source_agrees.
+Print Assumptions build_moof_with_offset_source_agrees.
+Print Assumptions build_moof_source_agrees.
+Print Assumptions build_media_segment_source_agrees.
